@@ -135,6 +135,8 @@ def run(ctx, R):
     gs = goals(b)
     R.ob("C25:truncate_lh_to/1:calls-primitive", len(gs) == 1 and gs[0][0] == "cmp" and gs[0][1] == "$truncate_lh_to" and gs[0][2] == h[2], "truncate_lh_to(L) :- '$truncate_lh_to'(L)", W(("truncate_lh_to", 1)))
 
+    bagof_setof_siblings(R)
+    witnesses_rule(R)
     fa = clauses_of("src/lib/iso_ext.pl", {("forall", 2)})[("forall", 2)]
     h, b, line = fa[0]
     g_, t_ = h[2]
@@ -178,3 +180,74 @@ def walk_terms(t):
         for a in t[2]:
             out += walk_terms(a)
     return out
+
+
+def bagof_setof_siblings(R):
+    """bagof/3 and setof/3 are one algorithm (collect Witness-Template pairs, make variant witnesses identical, order the
+    pairs, split them into groups) and differ only in the ordering step: keysort/2 (stable, keeps duplicates and solution
+    order inside a group) for bagof, sort/2 (sorts and removes duplicates) for setof. Sibling agreement: the two clauses are
+    the same goal sequence with the same variable plumbing up to that one goal; the ordering step comes after the witnesses
+    were made identical (sorting first separates variants that are about to be unified) and before the split."""
+    cl = clauses_of("src/lib/builtins.pl", {("bagof", 3), ("setof", 3)})
+    shapes = {}
+    for f in (("bagof", 3), ("setof", 3)):
+        cs = cl[f]
+        R.ob("C25:%s/3:one-clause" % f[0], len(cs) == 1, "%s/3 has %d clauses" % (f[0], len(cs)), "src/lib/builtins.pl:%s" % cs[0][2])
+        h, b, line = cs[0]
+        names = {}
+
+        def canon(t):
+            if t[0] == "var":
+                if t[1] == "_":
+                    return ("var", "_")
+                names.setdefault(t[1], "V%d" % len(names))
+                return ("var", names[t[1]])
+            if t[0] == "cmp":
+                return ("cmp", t[1], [canon(a) for a in t[2]])
+            return t
+        hc = canon(("cmp", "head", h[2]))
+        gs = [canon(strip_mod(g)) for g in P.conj(b)]
+        shapes[f[0]] = (hc, gs, line)
+    for nm, sorter in (("bagof", "keysort"), ("setof", "sort")):
+        hc, gs, line = shapes[nm]
+        names_ = [g[1] if g[0] in ("cmp", "atom") else "?" for g in gs]
+        i_u = names_.index("unify_variant_variables") if "unify_variant_variables" in names_ else None
+        i_s = names_.index(sorter) if sorter in names_ else None
+        i_p = names_.index("split_by_variant") if "split_by_variant" in names_ else None
+        R.ob("C25:%s/3:orders-with-%s-after-unifying-variants" % (nm, sorter), None not in (i_u, i_s, i_p) and i_u < i_s < i_p,
+             "%s/3 must make variant witnesses identical (unify_variant_variables), THEN order the pairs with %s/2, THEN split them into groups; found %s: ordering first leaves "
+             "the variants of one witness scattered (setof(X, p(X,Y), L) with p(2,_). p(1,_). p(2,_). gives [2,1,2])" % (nm, sorter, names_), "src/lib/builtins.pl:%s" % line)
+    b_h, b_g, _ = shapes["bagof"]
+    s_h, s_g, sl = shapes["setof"]
+    norm = lambda gs: [("cmp", "ORDER", g[2]) if g[0] == "cmp" and g[1] in ("sort", "keysort") else g for g in gs]
+    R.ob("C25:bagof-setof:same-algorithm-up-to-the-ordering-step", b_h == s_h and norm(b_g) == norm(s_g),
+         "bagof/3 and setof/3 must be the same goal sequence with the same variable plumbing except keysort/2 vs sort/2; bagof: %s; setof: %s"
+         % ([P.show(g) for g in b_g], [P.show(g) for g in s_g]), "src/lib/builtins.pl:%s" % sl)
+
+
+def witnesses_rule(R):
+    """"bagof/3 and setof/3 group solutions by the free variables not bound by ^": in findall_with_existential the grouping
+    witnesses of V^Goal are the goal's free variables MINUS the quantified ones. A prefix/concatenation relation between
+    the two lists (lists:append) holds only when every free variable is quantified and makes the call fail otherwise."""
+    cl = clauses_of("src/lib/builtins.pl", {("findall_with_existential", 5)})[("findall_with_existential", 5)]
+    h, b, line = cl[0]
+    w0, w = h[2][3], h[2][4]
+    defining = []
+    for g in walk_terms(b):
+        if g[0] == "cmp" and g[1] not in (",", ";", "->", ":", "findall_with_existential") and w in g[2] and any(w0 == a for a in g[2]):
+            defining.append(g)
+    if not defining:
+        raise AnchorLost("findall_with_existential/5: the goal that relates Witnesses0 and Witnesses")
+    rel = [g for g in defining if g[1] != "="]
+    names = sorted({g[1] for g in rel})
+    ok = bool(rel) and "append" not in names
+    helper_ok = True
+    for nm in names:
+        if nm == "append":
+            continue
+        hc = clauses_of("src/lib/builtins.pl", {(nm, len(rel[0][2]))}).get((nm, len(rel[0][2])), [])
+        txt = " ".join(P.show(x[1]) for x in hc)
+        helper_ok = helper_ok and "==(" in txt     # removes by identity, not by unification
+    R.ob("C25:bagof-setof:witnesses-are-free-variables-minus-quantified", ok and helper_ok,
+         "findall_with_existential relates the free variables (Witnesses0), the ^-quantified ones and the grouping witnesses through %s: the witnesses must be the set difference "
+         "by identity (==); with lists:append the call fails whenever a free variable is left unquantified (bagof(X, Y^f(X,Y,Z), L) fails)" % names, "src/lib/builtins.pl:%s" % line)
